@@ -573,6 +573,14 @@ class PteraTransformer(NodeTransformer):
         else:  # pragma: no cover
             raise NotImplementedError(target)
 
+    def visit_Lambda(self, node):
+        # A scope of its own, like a nested def: what it binds (an assignment
+        # expression) or yields is not this function's
+        return node
+
+    def visit_AsyncFunctionDef(self, node):
+        return node
+
     def visit_FunctionDef(self, node, root=False):
         if not root:
             return node
